@@ -248,8 +248,28 @@ func (g *G) DHCP() DHCPMsg {
 			g.Label("dhcp_pad_option")
 			continue
 		}
-		data := g.Bytes("dhcp_optdata", g.Int("dhcp_optlen", 0, 40))
-		d.Options = append(d.Options, protocol.DHCPNewOption(tag, cp(data)))
+		var data []byte
+		var opt protocol.DHCPOption
+		switch g.Pick("dhcp_opt_ctor", 6) {
+		case 0: // one address (subnet mask, server id, requested address, ...)
+			ip, w := g.ip4("dhcp_opt_ip")
+			opt, _ = protocol.DHCPIP4Option(tag, ip)
+			data = w
+			g.Label("dhcp_option_ctor=ip4")
+		case 1: // address list (routers, DNS servers, ...)
+			ips, w := g.ip4List("dhcp_opt_ips", g.Int("dhcp_opt_nips", 0, 8))
+			opt, _ = protocol.DHCPIP4sOption(tag, ips)
+			data = w
+			g.Label("dhcp_option_ctor=ip4s")
+		case 2: // text (host name, domain, message)
+			data = g.Bytes("dhcp_optstr", g.Int("dhcp_optstrlen", 0, 40))
+			opt, _ = protocol.DHCPStringOption(tag, string(data))
+			g.Label("dhcp_option_ctor=string")
+		default:
+			data = g.Bytes("dhcp_optdata", g.Int("dhcp_optlen", 0, 40))
+			opt = protocol.DHCPNewOption(tag, cp(data))
+		}
+		d.Options = append(d.Options, opt)
 		w = append(w, tag, byte(len(data)))
 		w = append(w, data...)
 		if !ended {
